@@ -336,4 +336,4 @@ Definition ex_trace : list event :=
 Example no_leak_nonvacuous :
   exists s, known_C19_sendfail ex_trace = false /\ run false init_go ex_trace = Ok s /\
             result_of s 0%nat = Some RTimeout /\ result_of s 1%nat = Some RNil /\ tbl s = [].
-Proof. eexists. repeat split; reflexivity. Qed.
+Proof. eexists. split; [reflexivity|]. split; [vm_compute; reflexivity|]. repeat split; vm_compute; reflexivity. Qed.
